@@ -15,6 +15,7 @@ type SpecScope struct {
 	names    map[string]*Value // bound names (contract parameters, results, quantified variables)
 	oldNames map[string]*Value // values of the same names in the old state (nil: same as names)
 	pkg      *PkgInfo          // package whose scope resolves constants, variables, functions, types
+	predPkg  string            // package path whose spec predicates / ufuncs are in scope (default: pkg)
 	useEnv   bool              // resolve unbound names among the locals of the function under verification
 	pos      token.Pos         // position (for local lookup)
 	bound    int
@@ -537,6 +538,21 @@ func (vc *VC) specQuant(sc *SpecScope, x *SQuant) *Value {
 		qbody = smtAnd(facts, body.Term)
 	}
 	var parts []string
+	if len(x.Triggers) > 0 {
+		var ts []string
+		for _, tr := range x.Triggers {
+			tv := vc.evalSpec(inner, tr)
+			if tt, ok := scalarOf(tv); ok {
+				ts = append(ts, tt)
+			}
+		}
+		qb := "(! " + qbody + " :pattern (" + strings.Join(ts, " ") + ") :qid " + qidOf(x) + ")"
+		kw := "exists"
+		if x.Forall {
+			kw = "forall"
+		}
+		return boolV("(" + kw + " (" + strings.Join(binders, " ") + ") " + qb + ")")
+	}
 	for _, variant := range normalizeQuant(qbody, boundNames) {
 		if pats := inferPatterns(variant, boundNames); pats != "" && variant != "true" && variant != "false" {
 			variant = "(! " + variant + " " + pats + " :qid " + qidOf(x) + ")"
@@ -715,6 +731,11 @@ func (vc *VC) specCall(sc *SpecScope, x *SCall) *Value {
 			if sc.pkg != nil {
 				pkgPath = sc.pkg.Path
 			}
+			if sc.predPkg != "" {
+				if pd := vc.w.findPred(sc.predPkg, id.Name); pd != nil {
+					return vc.applyPred(sc, pd, args())
+				}
+			}
 			if pd := vc.w.findPred(pkgPath, id.Name); pd != nil {
 				return vc.applyPred(sc, pd, args())
 			}
@@ -746,10 +767,30 @@ func (vc *VC) applyPred(sc *SpecScope, pd *PredDef, args []*Value) *Value {
 	if len(args) != len(pd.Params) {
 		vc.specFail(sc, "predicate %s: %d arguments expected", pd.Name, len(pd.Params))
 	}
+	if pd.Uninterp {
+		var ts, sorts []string
+		for _, a := range args {
+			t, ok := scalarOf(a)
+			if !ok {
+				vc.specFail(sc, "ufunc %s: composite argument", pd.Name)
+			}
+			ts = append(ts, t)
+			sorts = append(sorts, "Int")
+		}
+		name := "spec_" + mangle(pd.Name)
+		if pd.Ret == "bool" {
+			vc.declareFun(name, "("+strings.Join(sorts, " ")+") Bool")
+			return boolV(app(name, ts...))
+		}
+		vc.declareFun(name, "("+strings.Join(sorts, " ")+") Int")
+		vc.useAxiomsFor(sc)
+		rT := vc.resolveType(&SpecScope{cur: sc.cur, pkg: vc.w.Pkgs[pd.Pkg]}, pd.Ret)
+		return intV(app(name, ts...), rT)
+	}
 	if vc.predDepth > 8 {
 		vc.specFail(sc, "predicate expansion too deep (recursive predicate %s?)", pd.Name)
 	}
-	n := &SpecScope{cur: sc.cur, old: sc.old, names: map[string]*Value{}, pkg: sc.pkg, where: sc.where + "/" + pd.Name}
+	n := &SpecScope{cur: sc.cur, old: sc.old, names: map[string]*Value{}, pkg: sc.pkg, predPkg: pd.Pkg, where: sc.where + "/" + pd.Name}
 	if pi := vc.w.Pkgs[pd.Pkg]; pi != nil {
 		n.pkg = pi
 	}
@@ -850,4 +891,23 @@ func qidOf(x *SQuant) string {
 		t = t[:40]
 	}
 	return "q_" + mangle(t)
+}
+
+// useAxiomsFor evaluates the declared spec axioms (facts about uninterpreted spec functions) once per VC;
+// the relevance filter keeps them out of queries that do not mention their symbols.
+func (vc *VC) useAxiomsFor(sc *SpecScope) {
+	if vc.axiomsLoaded {
+		return
+	}
+	vc.axiomsLoaded = true
+	for _, ax := range vc.w.Axioms {
+		pi := vc.w.Pkgs[ax.Pkg]
+		if pi == nil {
+			pi = vc.pkg
+		}
+		tmp := &State{env: map[types.Object]*Value{}, heap: map[string]string{}, alloc: "Alloc0", ghost: map[string]string{}}
+		t := vc.evalSpecBoolIn(&SpecScope{cur: tmp, names: map[string]*Value{}, pkg: pi, predPkg: ax.Pkg, where: "axiom " + ax.Text}, ax.Body)
+		vc.addAxiom(t)
+		vc.assumptions["spec axiom: "+ax.Text] = true
+	}
 }
